@@ -106,6 +106,20 @@ def _build():
     _reg(Schema("num_mr_1d", [M], [("mr", 0)], numeric=dict(num)), (1,), NUMS, quick=3, thorough=4)
     _reg(Schema("num_0d", [], [], numeric={"measures": ["mean"], "valid_counts": False, "with_count": True}),
          (1,), NUMS, quick=4, thorough=6)
+    # numeric measures under EVERY dimension-type pairing (each measure class dispatches on
+    # the type pair separately from the counts)
+    for t, e in list(E.items()) + [("catdate", D)]:
+        _reg(S.schema2("num_%s_x_mr" % t, e, M, numeric=dict(num)), (1,), NUMS, quick=1, thorough=2)
+        _reg(S.schema2("num_mr_x_%s" % t, M, e, numeric=dict(num)), (1,), NUMS, quick=1, thorough=2)
+        _reg(S.schema2("num_cat_x_%s" % t, A["last"], e, numeric=dict(num)), (1,), NUMS, quick=2, thorough=3)
+        _reg(S.schema2("num_%s_x_cat" % t, e, A["last"], numeric=dict(num)), (1,), NUMS, quick=2, thorough=3)
+        _reg(Schema("num_%s_1d" % t, [e], [("enum" if e.kind == "ENUM" else "cat", 0)], numeric=dict(num)),
+             (1,), NUMS, quick=3, thorough=4)
+    _reg(S.schema2("num_mr_x_mr", M, N_, numeric=dict(num)), (1,), NUMS, quick=1, thorough=2)
+    _reg(Schema("num_catF_x_cat_x_mr", [T1, A1, M], [("cat", 0), ("cat", 1), ("mr", 2)], numeric=dict(num)),
+         (1,), NUMS, quick=1, thorough=2)
+    _reg(Schema("num_mr_x_cat_x_cat", [M, A1, B1], [("mr", 0), ("cat", 1), ("cat", 2)], numeric=dict(num)),
+         (1,), NUMS, quick=1, thorough=2)
     # old-style numeric responses without valid counts (count measure alongside)
     _reg(S.schema2("num_novalid_cat_x_cat", A["last"], B["first"],
                    numeric={"measures": ["mean"], "valid_counts": False, "with_count": True}),
